@@ -107,8 +107,10 @@ template <class T> void corrGraph(Ctx& c, int reps) {
             {
                 T y{};
                 ser.unpack(y);
-                c.sink->emit("serial.gunpack " + ty + " " + hex,
-                             "ok " + showLabelled(y) + " " + std::to_string(ser.position()));
+                const std::string sy = showLabelled(y);
+                c.sink->emit("serial.gunpack " + ty + " " + hex, "ok " + sy + " " + std::to_string(ser.position()));
+                c.sink->count("graph.pointers", static_cast<long>(std::count(sy.begin(), sy.end(), '&')));   // non-null pointers
+                c.sink->count("graph.objects", static_cast<long>(labels().of.size()));                      // distinct pointees
             }
             {
                 T z = Codec<T>::gen(c.rng, cfg);       // a stale target; may share pointees with x (same pools)
@@ -175,7 +177,10 @@ template <class T> void propGraph(Ctx& c, int reps) {
     X(std::tuple<int, std::shared_ptr<Rec>, std::vector<std::shared_ptr<Rec>>>) \
     X(std::shared_ptr<std::vector<std::shared_ptr<int>>>) X(std::map<int, std::vector<std::shared_ptr<std::string>>>) \
     X(WellLike) X(std::shared_ptr<WellLike>) X(std::vector<WellLike>) X(std::unordered_map<std::string, std::shared_ptr<WellLike>>) \
-    X(StepLike) X(std::vector<StepLike>) X(std::vector<std::shared_ptr<StepLike>>)
+    X(StepLike) X(std::vector<StepLike>) X(std::vector<std::shared_ptr<StepLike>>) \
+    X(Opm::ScheduleState::ptr_member<Rec>) X(std::vector<Opm::ScheduleState::ptr_member<std::string>>) \
+    X(Opm::ScheduleState::map_member<std::string, NamedRec>) X(std::vector<Opm::ScheduleState::map_member<std::string, NamedRec>>) \
+    X(RealStep) X(std::vector<RealStep>)
 
 // The menu of real C++ types.
 
